@@ -9,6 +9,15 @@
               same process -- (r4) on the first object again, (r5) on another fresh object, (r6) on the first object
               after ApplyParameters was called again: the six result lines must be IDENTICAL BIT PATTERNS
               (outputs at every step and final states, NaN payloads and signed zeros included);
+   others     the runs between the repetitions are three other catalogue models AND two other cases of the SAME model
+              type (different parameters / tables / data), and for the table models (Storage, RatingCurvePartition) the
+              neighbours of the case itself: the same tables with the data just off the table points the case sits on
+              (Storage cases are generated exactly on first / interior / last table volumes, also on tables with a
+              repeated volume = a vertical step of the release curves, also standing still there);
+   re-init    "re-initialise on the same object": ApplyParameters -> InitialiseStates -> Run -> InitialiseStates -> Run on
+              ONE object: the second freshly initialised state array must equal the first as it was before its run and
+              that of a fresh object, and the three runs from these arrays must agree bit for bit (custom-init models
+              Lag and GR4J and the zero-init ones; for Storage only the arrays are compared);
    intact     a later run must not alter the results of an earlier one: every output array (obtained from
               sim.InitialiseOutputs, as ow-sim and libopenwater obtain theirs) and state array of all the runs of a PURITY
               line is kept alive with a bit-pattern snapshot and re-read after EVERY later run (same model type and
@@ -34,6 +43,8 @@ sys.path.insert(0, os.path.dirname(os.path.abspath(__file__)))
 from hslib import *
 
 N = 25
+REINIT_SITUATIONS = ['re-initialised-states-on-the-same-object', 'initial-states-of-a-fresh-object',
+                     'run-after-re-initialising-the-same-object', 'run-from-initial-states-on-a-fresh-object']
 SITUATIONS = ['same-object-again', 'fresh-object', 'same-object-after-3-other-models', 'fresh-object-after-3-other-models',
               'same-object-after-ApplyParameters-again']
 
@@ -61,7 +72,48 @@ def purity_line(cs, alt, truncs, others):
     parts += ['OTHERS', str(len(others))]
     for o in others:
         parts += [o['model'], case_tokens(o)]
+    # re-initialise on the same object; the three runs from the model's own initial states are left out for Storage
+    # (zero volume on a table that releases / evaporates at zero volume is its agreed process crash)
+    parts += ['REINIT', '0' if cs['model'] == 'Storage' else '1']
     return ' '.join(p for p in parts if p != '')
+
+
+def pick_others(rng, ok, cs):
+    """the runs between the repetitions: three other catalogue models and two OTHER cases of the SAME model type
+    (different parameters / tables / data: package-level leftovers keyed by nothing but the code path show only then)"""
+    pool = [o for o in ok if o['model'] != cs['model']]
+    same = [o for o in ok if o['model'] == cs['model'] and o is not cs]
+    same = rng.sample(same, 2) if len(same) >= 2 else same
+    # table models: the neighbours of the case itself (same tables, data just off the table points, nothing moving),
+    # so that the last table lookups before the repetitions end in the segments next to the points the case sits on
+    nb = table_neighbours(cs)        # just below, then just above the table points
+    return (rng.sample(pool, 3) if len(pool) >= 3 else []) + same + nb
+
+
+def table_neighbours(cs):
+    m, p = cs['model'], cs['params']
+    out = []
+    if m == 'Storage':
+        n = int(p[1])
+        vols = p[2 + n:2 + 2 * n]
+        v0 = cs['states'][0]
+        if v0 in vols:
+            # one quiet step of ONE SECOND (so that nothing can drain it out of the segment) in the middle of the segment
+            # below and of the segment above the point the case starts on
+            quiet = [[0.0] for _ in cs['inputs']]
+            lo = vols.index(v0)
+            hi = n - 1 - vols[::-1].index(v0)
+            if lo >= 1:
+                out.append(dict(cs, params=[1.0] + p[1:], states=[0.5 * (vols[lo - 1] + v0)] + cs['states'][1:], inputs=quiet))
+            if hi + 1 < n:
+                out.append(dict(cs, params=[1.0] + p[1:], states=[0.5 * (v0 + vols[hi + 1])] + cs['states'][1:], inputs=quiet))
+    elif m == 'RatingCurvePartition':
+        n = int(p[0])
+        xs = p[1:1 + n]
+        if any(x in xs[1:-1] for x in cs['inputs'][0]):
+            for f in (1 - 1e-9, 1 + 1e-9):
+                out.append(dict(cs, inputs=[[min(max(x * f, xs[0]), xs[-1]) for x in cs['inputs'][0]]]))
+    return out
 
 
 def outputs_part(part):
@@ -103,6 +155,27 @@ def judge_parts(parts, truncs):
         if int(kt[2]) > 0:
             bad.append(('purity:earlier-results-altered', '%s of %s re-reads of kept output/state arrays differ from their snapshot: %s'
                         % (kt[2], kt[1], ' '.join(kt[3:]))))
+    if parts and parts[-1].startswith('INIT'):
+        it = parts[-1].split()[1:]
+        inits, pos = [], 0
+        while pos < len(it):
+            k = int(it[pos])
+            inits.append(it[pos + 1:pos + 1 + k])
+            pos += 1 + k
+        i1, i2, i3 = parts[-4:-1]
+        parts = parts[:-4]
+        if len(inits) == 3:
+            if inits[1] != inits[0]:
+                bad.append(('purity:re-initialised-states-on-the-same-object', 'InitialiseStates after a run gives %s, before the run %s'
+                            % ([h2f(x) for x in inits[1]][:8], [h2f(x) for x in inits[0]][:8])))
+            if inits[2] != inits[0]:
+                bad.append(('purity:initial-states-of-a-fresh-object', 'fresh object %s, first object %s'
+                            % ([h2f(x) for x in inits[2]][:8], [h2f(x) for x in inits[0]][:8])))
+        if i1 != 'SKIP':
+            if i2 != i1:
+                bad.append(('purity:run-after-re-initialising-the-same-object', first_diff(i1, i2)))
+            if i3 != i1:
+                bad.append(('purity:run-from-initial-states-on-a-fresh-object', first_diff(i1, i3)))
     r1 = parts[0]
     for name, p in zip(SITUATIONS, parts[1:6]):
         if p != r1:
@@ -162,7 +235,7 @@ def main():
     for m in ALL_MODELS:
         k = per_model
         if m == 'Storage':
-            k = 8 if quick else 60
+            k = 14 if quick else 80
         cases += g.cases(m, k)
 
     # ---- phase 1: plain runs on both sides (correspondence; finds the cases that return)
@@ -190,10 +263,12 @@ def main():
     truncs = list(range(1, N))
     plines = []
     for cs in ok:
-        pool = [o for o in ok if o['model'] != cs['model']]
-        others = rng.sample(pool, 3) if len(pool) >= 3 else []
+        others = pick_others(rng, ok, cs)
         cs['alt'] = alt_inputs(rng, cs['inputs'])
         cs['others'] = [o['model'] for o in others]
+        cs['others_cases'] = others
+        if table_neighbours(cs):
+            stats[cs['model']]['cases_on_table_points'] = stats[cs['model']].get('cases_on_table_points', 0) + 1
         plines.append(purity_line(cs, cs['alt'], truncs, others))
     pres = run_filtered(owrun, plines, 'CRASH', env=GOENV)
     # a tail-replaced series can drive Storage into its "drawn down to empty" process crash (agreed behaviour, C13)
@@ -203,8 +278,7 @@ def main():
     for i in redo:
         cs = ok[i]
         cs['alt'] = [list(r) for r in cs['inputs']]
-        pool = [o for o in ok if o['model'] != cs['model']]
-        plines[i] = purity_line(cs, cs['alt'], truncs, [o for o in pool if o['model'] in cs['others']][:3])
+        plines[i] = purity_line(cs, cs['alt'], truncs, cs['others_cases'])
     if redo:
         again = run_filtered(owrun, [plines[i] for i in redo], 'CRASH', env=GOENV)
         for i, r in zip(redo, again):
@@ -220,7 +294,7 @@ def main():
             c.violation('purity_%s_%d.json' % (m, i), dict(desc, kind='run-fails-in-PURITY-but-returned-alone', answer=res[:200]))
             continue
         parts = [p.strip() for p in res.split(' | ')]
-        if len(parts) != 6 + 2 * len(truncs) + 1 or not parts[-1].startswith('KEPT'):
+        if len(parts) != 6 + 2 * len(truncs) + 5 or not parts[-1].startswith('KEPT'):
             c.violation('purity_%s_%d.json' % (m, i), dict(desc, kind='malformed-answer', answer=res[:200]))
             continue
         # the first run must be the run of phase 1 (a separate process): purity across processes
@@ -228,7 +302,7 @@ def main():
             c.violation('purity_%s_%d.json' % (m, i), dict(desc, kind='purity:different-process',
                                                            difference=first_diff(impl[klines.index(kline(cs))].strip(), parts[0])))
         bad = judge_parts(parts, truncs)
-        for s in SITUATIONS:
+        for s in SITUATIONS + REINIT_SITUATIONS[:2 if m == 'Storage' else 4]:
             c.count((m, cs['params'], cs['states'], cs['inputs'], s), nontrivial=nt)
             st['purity_comparisons'] += 1
         for t in truncs:
@@ -355,8 +429,7 @@ def main():
         cs['truncs'] = sorted(set(t for t in (1, 150, 416, 417, 1000, n - 1) if 0 < t < n))
         st['truncation_points'] = cs['truncs']
         cs['alt'] = alt_inputs(rng, cs['inputs'])
-        pool = [o for o in ok if o['model'] != m]
-        cs['others_cases'] = rng.sample(pool, 3) if len(pool) >= 3 else []
+        cs['others_cases'] = pick_others(rng, ok, cs)
         cs['others'] = [o['model'] for o in cs['others_cases']]
         lok.append(cs)
         lines5.append(purity_line(cs, cs['alt'], cs['truncs'], cs['others_cases']))
@@ -381,15 +454,16 @@ def main():
             c.violation(name, dict(desc, kind='run-fails-in-PURITY-but-returned-alone', answer=res[:200]))
             continue
         parts = [p.strip() for p in res.split(' | ')]
-        if len(parts) != 6 + 2 * len(tr) + 1 or not parts[-1].startswith('KEPT'):
+        if len(parts) != 6 + 2 * len(tr) + 5 or not parts[-1].startswith('KEPT'):
             c.violation(name, dict(desc, kind='malformed-answer', answer=res[:200]))
             continue
         if parts[0] != cs['kres']:
             c.violation(name, dict(desc, kind='purity:different-process', difference=first_diff(cs['kres'], parts[0])))
         bad = judge_parts(parts, tr)
-        for s in SITUATIONS + ['earlier-results-stay-intact']:
+        rs5 = REINIT_SITUATIONS[:2 if m == 'Storage' else 4]
+        for s in SITUATIONS + rs5 + ['earlier-results-stay-intact']:
             c.count((m, 'long', cs['params'], cs['states'], cs['inputs'][0][:50], s), nontrivial=nt)
-        st['purity_comparisons'] += len(SITUATIONS)
+        st['purity_comparisons'] += len(SITUATIONS) + len(rs5)
         for t in tr:
             for kind in ('truncated', 'tail-replaced'):
                 c.count((m, 'long', cs['params'], cs['states'], cs['inputs'][0][:50], kind, t), nontrivial=nt)
@@ -399,8 +473,10 @@ def main():
 
     c.cov['rule'] = ('per catalogue model (all 41): parameter vectors, initial states and 25-step input series from the generators of the '
                      'model\'s own check (C10/C11/C12/C13/C16/C19/C20); each returning case is run six times in one process (same object '
-                     'twice, fresh object, same and fresh object after three other randomly chosen catalogue models have run, same object '
-                     'after ApplyParameters again) plus once in another process, and 2 x 24 times with the inputs truncated at / replaced '
+                     'twice, fresh object, same and fresh object after three other randomly chosen catalogue models, two other cases of the '
+                     'same model type and -- for Storage / RatingCurvePartition cases sitting exactly on table points -- their own tables '
+                     'with data just off those points have run, same object after ApplyParameters again; InitialiseStates again on a used '
+                     'object vs before vs a fresh object, and the runs from those arrays) plus once in another process, and 2 x 24 times with the inputs truncated at / replaced '
                      'after every t = 1..24; one evaluation = one bit comparison of a run with the reference run (5 purity situations + 48 '
                      'causality runs per case + 1 for "earlier results stay intact": every output array (sim.InitialiseOutputs) and state '
                      'array of all those runs is kept alive and re-read bit for bit after every later run); plus LARGE cases: models drawn '
@@ -414,6 +490,10 @@ def main():
     c.finish(extra_cov={'per_model': stats, 'models': len(stats), 'series_length': N, 'exhaustive': False,
                         'cases_rerun_without_tail_replacement_after_a_process_crash': fallback,
                         'truncation_points_per_case': len(truncs), 'large_cases': large_stats,
+                        'purity_situations': SITUATIONS + REINIT_SITUATIONS + ['earlier-results-stay-intact', 'other-process'],
+                        'runs_between_repetitions': '3 other catalogue models + 2 other cases of the same model type + (table models) the '
+                                                    'case\'s own tables with data just below / above the table points it sits on',
+                        'cases_on_table_points': {m: s['cases_on_table_points'] for m, s in stats.items() if s.get('cases_on_table_points')},
                         'long_runs': long_stats, 'long_storage_steps': lsteps, 'long_run_steps': LN,
                         'kept_array_rereads': sum(s.get('kept_array_rereads', 0) for s in stats.values()),
                         'oracle': 'identical IEEE-754 bit patterns of all outputs and final states (purity); identical bit patterns of the '
